@@ -5,6 +5,7 @@ import Frp.Model.Dispatch
 import Frp.Model.Liveness
 import Frp.Props.C14Heal
 import Frp.Props.C14Teardown
+import Frp.Props.C14Live
 /-
   C14 — Dead peers are detected and tunnels heal themselves (partial: wall-clock behaviour and
   goroutine scheduling are sampled by the `wait` engine, not proved).
@@ -32,6 +33,11 @@ import Frp.Props.C14Teardown
           read loop is never occupied, the watchdog sees every Pong when it is sent, a server that
           keeps answering is never torn down whatever work connections sit idle; with a plain handler
           one idle work connection starves the watchdog (theorem + witness); tie to the source.
+  Parts I, J (Frp/Props/C14Live.lean, J continued at the end of this file): a dead session is torn down with LIVE
+          user connections -- the teardown neither waits for nor depends on them; a `Close` that waits for its
+          connection handlers keeps a silent peer's session for ever (tie: no `Close` of server/proxy waits);
+          `Complete` never changes a written heartbeat setting, so a silent server is detected within the WRITTEN
+          timeout plus one checker period (tie: the statements of the two Complete methods, interpreted).
 -/
 namespace Frp
 namespace C14
@@ -1625,6 +1631,50 @@ example :
       (Dispatch.run c s ls).wd.closed = some (4000, .timeout) := by decide
 
 end PartF
+
+section PartJ2
+open Watchdog HbConf
+
+/-! ## Part J (continued) — detection within the WRITTEN timeout -/
+
+/-- **A silent server is detected within the written timeout plus one checker period**, for every written positive
+    interval / timeout pair (timeout below, at, between one and two times, or above two times the interval) and
+    either tcpMux setting: the client whose configuration went through `Complete` closes at the first check later
+    than `last + t`, i.e. in `(last + t, last + t + P]` with `t` the timeout AS WRITTEN. -/
+theorem detect_written (mux : Bool) (i t : Int) (u P : Nat) (hi : 0 < i) (ht : 0 < t)
+    (es : List (Nat × Ev)) (s : St) (pc : Nat) (h0 : s.closed = none) (hs : silent es) (hb : noBad es)
+    (hreg : checksRegular P pc es = true) (hpc : pc ≤ s.last + t.toNat * u)
+    (hex : ∃ x ∈ es, x.2 = .check ∧ s.last + t.toNat * u < x.1) :
+    ∃ tc, (run (clientCfg (clientComplete mux i t).1 (clientComplete mux i t).2 u) s es).closed = some (tc, .timeout) ∧
+      s.last + t.toNat * u < tc ∧ tc ≤ s.last + t.toNat * u + P := by
+  rw [client_cfg_written mux i t u hi ht]
+  obtain ⟨tc, h1, _, h2, h3⟩ :=
+    detect { enabled := true, T := t.toNat * u, closeOnBad := true } P rfl es s pc h0 hs (fun _ => hb) hreg hpc hex
+  exact ⟨tc, h1, h2, h3⟩
+
+/-- the same for the statements of `Complete` found in the source -/
+theorem detect_written_code (mux : Bool) (i t : Int) (u P : Nat) (hi : 0 < i) (ht : 0 < t)
+    (es : List (Nat × Ev)) (s : St) (pc : Nat) (h0 : s.closed = none) (hs : silent es) (hb : noBad es)
+    (hreg : checksRegular P pc es = true) (hpc : pc ≤ s.last + t.toNat * u)
+    (hex : ∃ x ∈ es, x.2 = .check ∧ s.last + t.toNat * u < x.1) :
+    ∃ v, interp Gen.SessFacts.clientHbAssigns mux (i, t) = some v ∧
+      ∃ tc, (run (clientCfg v.1 v.2 u) s es).closed = some (tc, .timeout) ∧
+        s.last + t.toNat * u < tc ∧ tc ≤ s.last + t.toNat * u + P := by
+  refine ⟨(clientComplete mux i t), code_client_complete mux i t, ?_⟩
+  exact detect_written mux i t u P hi ht es s pc h0 hs hb hreg hpc hex
+
+/-- **Witness: a `Complete` that raises the timeout to two intervals is late by up to an interval.**  Written
+    interval 2 s / timeout 2 s, a server silent from the start, checks every second: the watchdog run with the
+    raised value (4 s) closes at 5 s, outside the promised (2 s, 3 s + slack]. -/
+theorem raised_timeout_late_witness :
+    let es : List (Nat × Ev) := [(1000, .check), (2000, .check), (3000, .check), (4000, .check), (5000, .check)]
+    (run (clientCfg 2 4 1000) { last := 0 } es).closed = some (5000, .timeout) ∧
+      (run (clientCfg (clientComplete false 2 2).1 (clientComplete false 2 2).2 1000) { last := 0 } es).closed
+        = some (3000, .timeout) ∧
+      detectHolds 2000 1000 400 30 0 (some 5000) 5000 = false ∧
+      detectHolds 2000 1000 400 30 0 (some 3000) 3000 = true := by decide
+
+end PartJ2
 
 end C14
 end Frp
